@@ -292,8 +292,8 @@ unsigned MessageBase::copy_legal(MessageBase *to, bool force) const
 			GroupBase *gb;
 			if (pp._field_traits & FieldTrait::group && (gb = find_group(pp._fnum)))
 			{
-				GroupBase *gb1(to->find_group(pp._fnum));
-				for (const auto *qq : gb->_msgs)
+				GroupBase *gb1(to->find_add_group(pp._fnum)); // header groups are not instantiated by the deep ctor
+				if (gb1) for (const auto *qq : gb->_msgs)
 				{
 					MessageBase *grc(gb1->create_group(true));
 					copied += qq->copy_legal(grc, force);
@@ -332,12 +332,15 @@ unsigned MessageBase::move_legal(MessageBase *to, bool force)
 			if (pp._field_traits & FieldTrait::group)
 			{
 				auto gitr(_groups.find(pp._fnum));
-				GroupBase *gb1(to->find_group(pp._fnum));
-				if (gb1)
-					delete to->replace(pp._fnum, gitr->second);
-				else
-					*to += gitr->second;
-				gitr->second = nullptr;
+				if (gitr != _groups.end()) // a count of 0 may come without an instantiated group (header groups)
+				{
+					GroupBase *gb1(to->find_group(pp._fnum));
+					if (gb1)
+						delete to->replace(pp._fnum, gitr->second);
+					else
+						*to += gitr->second;
+					gitr->second = nullptr;
+				}
 			}
 
 			auto itr(_fields.find(pp._fnum));
